@@ -549,6 +549,7 @@ func (fr *Frame) convert(x *ssa.Convert, st *State, g string) {
 		n := app("strlen", v.t)
 		fc.assume("true", eq(app("str_of_bytes", blk, "0", n), v.t))
 		fc.emit(fmt.Sprintf("(assert (forall ((i Int)) (! (=> (and (<= 0 i) (< i %s)) (= (select %s i) (strat %s i))) :pattern ((select %s i)))))", n, blk, v.t, blk))
+		fc.strToBytesFact(blk, n, v.t) // ext_bytesalgebra.go
 		fr.setVal(x, "Slice", mkSlice(pt, "0", n, n))
 	case tok && tb.Info()&types.IsString != 0:
 		if _, isSl := from.(*types.Slice); isSl {
@@ -556,6 +557,7 @@ func (fr *Frame) convert(x *ssa.Convert, st *State, g string) {
 			blk := app("select", fc.comp(st, k, s), sarr(v.t))
 			fr.setVal(x, "Str", app("str_of_bytes", blk, soff(v.t), slen(v.t)))
 			fc.assume("true", eq(app("strlen", fr.vals[x].t), slen(v.t)))
+			fc.bytesToStrFact(blk, soff(v.t), slen(v.t), fr.vals[x].t) // ext_bytesalgebra.go
 			return
 		}
 		fc.unsupported("conversion to string from " + x.X.Type().String())
